@@ -25,6 +25,8 @@ namespace igris
         static_string(const char *dat)
         {
             m_size = strlen(dat);
+            if (m_size > N)
+                m_size = N;
             memcpy(data, dat, m_size);
         }
 
